@@ -258,3 +258,28 @@ End BlockProofs.
 
 Lemma chains_limit cp : In cp chains -> cp_pow_limit cp < 2^256.
 Proof. intros [<- | [<- | [<- | [<- | []]]]]; vm_compute; reflexivity. Qed.
+
+(* ---------- the statements of Props/C16.v ---------- *)
+Theorem check_tx_iff : forall (cp : chain_params) (t : tx), tx_in_range t ->
+  (check_tx cp t = Ok tt <-> valid_tx cp t).
+Proof. intros cp t R. exact (decides_ok _ _ (check_tx_dec cp t R)). Qed.
+Theorem check_tx_errors : forall (cp : chain_params) (t : tx) (e : exn), tx_in_range t ->
+  check_tx cp t = Err e -> is_validation e = true.
+Proof. intros cp t e R. exact (decides_err _ _ e (check_tx_dec cp t R)). Qed.
+Theorem check_block_iff_chains : forall (H : bytes -> bytes), (forall x, length (H x) = 32%nat) ->
+  forall (cp : chain_params), In cp chains ->
+  forall (b : block) (fCheckPoW fCheckMerkleRoot : bool) (cur_time : Z), block_in_range b ->
+  (check_block H cp b fCheckPoW fCheckMerkleRoot cur_time = Ok tt
+   <-> valid_block H cp cur_time fCheckPoW fCheckMerkleRoot b).
+Proof. intros H H32 cp I b fp fm now R. exact (check_block_iff H H32 cp b fp fm now R (chains_limit cp I)). Qed.
+Theorem check_block_errors_chains : forall (H : bytes -> bytes), (forall x, length (H x) = 32%nat) ->
+  forall (cp : chain_params), In cp chains ->
+  forall (b : block) (fCheckPoW fCheckMerkleRoot : bool) (cur_time : Z) (e : exn), block_in_range b ->
+  check_block H cp b fCheckPoW fCheckMerkleRoot cur_time = Err e -> is_validation e = true.
+Proof. intros H H32 cp I b fp fm now e R. exact (check_block_errors H H32 cp b fp fm now e R (chains_limit cp I)). Qed.
+Lemma limits_are_consensus :
+  MAX_BLOCK_SIZE = 1000000 /\ MAX_BLOCK_WEIGHT = 4000000 /\ MAX_BLOCK_SIGOPS = 20000 /\
+  WITNESS_COINBASE_SCRIPTPUBKEY_MAGIC = commit_magic /\
+  map cp_max_money chains = [21000000 * 100000000; 21000000 * 100000000; 21000000 * 100000000; 21000000 * 100000000] /\
+  map cp_pow_limit chains = [2^224 - 1; 2^224 - 1; 2^224 - 1; 2^255 - 1].
+Proof. repeat split. Qed.
